@@ -93,6 +93,16 @@ class STruthy(Sym):
         self.t = t
 
 
+class ExternalValue(Sym):
+    """A caller-supplied object of unknown class: nothing is known about it, in particular its __str__/__repr__/__format__ may
+    raise (an int too long to print, bytes under -bb, a user class)."""
+
+    __slots__ = ("name",)
+
+    def __init__(self, name):
+        self.name = name
+
+
 class Undefined:
     """Value of a local that was havocked at a loop head without a declared kind."""
 
